@@ -22,7 +22,7 @@ CFG3 = {
 
 def models(tier):
     out = []
-    msgs = ["rq:3:own", "rq:4:own", "rq:4:r2", "rq:3:r2", "rq:9:own", "rq:3:foreign", "rq:9:foreign", "rq:3:own:missing", "rq:9:foreign:missing",
+    msgs = ["rq:3:own", "rq:4:own", "rq:4:r2", "rq:3:r2", "rq:9:own", "rq:3:foreign", "rq:9:foreign", "rq:3:own:missing", "rq:9:foreign:missing", "rq:3:own:alias",
             "rq:3:own:missing:T", "rq:3:own:T", "dwr", "dwa", "untyped", "req_big", "req_noP"]
     alpha = [("m", 0, n) for n in msgs]
     alpha += [("m", 1, n) for n in ("rq:3:own", "rq:4:own", "rq:4:r2", "rq:3:r2", "rq:9:own", "rq:3:own:missing", "dwr")]      # the other peer: what differs per peer
@@ -40,8 +40,8 @@ def models(tier):
     two["peers"][1]["realm"] = "realm2.example"
     out.append(monitors.ScenarioModel("two-apps-peer-in-second-realm", two,
                                       [("m", c, n) for c in (0, 1) for n in ("rq:3:own", "rq:3:r2", "rq:4:own", "rq:4:r2", "rq:3:foreign", "dpr")] +
-                                      [("ans", 0), ("tick", 2)],
-                                      MONS, max_socks=2, prelude=[("accept",), ("m", 0, "cer_p0"), ("accept",), ("m", 1, "cer_p1")]))
+                                      [("ans", 0), ("tick", 2), ("eof", 0), ("eof", 1), ("accept",), ("m", 2, "cer_p0")],
+                                      MONS, max_socks=3, prelude=[("accept",), ("m", 0, "cer_p0"), ("accept",), ("m", 1, "cer_p1")]))
     # one application, two peers, an additional realm: every (peer, realm) pair of the configuration is served
     xr = copy.deepcopy(CFG3)
     xr["apps"] = [{"id": 4, "auth": True, "peers": [0, 1], "realms": ["realm2.example"]}, {"id": 3, "acct": True, "peers": [1, 0], "realms": ["realm2.example"]}]
